@@ -190,6 +190,9 @@ pub fn check_case(c: &Case, rep: &mut Report) {
             s.server.with(|sv| sv.fail_write_once = Some((0, kind)));
         }
         let res = match &mut s.client {
+            // an event kind that cannot be sent must be refused with an error by both entry points (the lenient one only
+            // turns "not in the active window" into Ok)
+            crate::client::Client::Real(rc) if matches!(op, Op::Refused) && i % 2 == 1 => mon::guarded(|| rc.try_write(ev).map_err(|e| err_kind(&e))),
             crate::client::Client::Real(rc) => mon::guarded(|| rc.write(ev).map_err(|e| err_kind(&e))),
             crate::client::Client::Plain(p) => {
                 let pdu = match op {
@@ -315,6 +318,7 @@ pub fn check_case(c: &Case, rep: &mut Report) {
 }
 
 pub fn run(cfg: &Cfg) -> Report {
+    crate::tls::prewarm(false);
     let seed = cfg.seed;
     let mut total = Report::new();
     // class 0: 3 sweeps x 16 slices of 4096 values = every x, every y, every scancode (both tiers; thorough repeats with other seeds)
